@@ -309,6 +309,72 @@ def sequential_histories(rep, work, hs, tier, rng):
     return out
 
 
+COLD = r"""
+import json, sys, threading
+sys.path.insert(0, sys.argv[1])
+import io
+sys.stdout = io.StringIO()          # hszinc prints the generated source of every filter it compiles
+sys.setswitchinterval(1e-6)
+import hszinc
+g = hszinc.Grid(version='3.0', columns=[('id', []), ('area', []), ('dis', []), ('siteRef', [])])
+g.extend([{'id': hszinc.Ref('a'), 'dis': 'A', 'area': 10.0}, {'id': hszinc.Ref('b'), 'dis': 'B', 'area': 50.0, 'siteRef': hszinc.Ref('a')},
+          {'id': hszinc.Ref('c'), 'dis': 'C', 'area': 50.0, 'siteRef': hszinc.Ref('b')}])
+FILTERS = ['area > 20', 'dis == "B"', 'siteRef->area > 20', 'not siteRef and area < 20', 'siteRef->dis == "A" or dis == "C"',
+           'area >= 50 and dis != "A"', 'id == @a', 'siteRef']
+n = int(sys.argv[2])
+bar = threading.Barrier(n)
+out = {}
+def work(i):
+    f = FILTERS[i]
+    bar.wait()
+    try:
+        out[i] = [r['id'].name for r in g[0:3].filter(f)] if i % 2 else [r['id'].name for r in g.filter(f)]
+    except BaseException as e:
+        out[i] = 'EXC ' + type(e).__name__
+ts = [threading.Thread(target=work, args=(i,)) for i in range(n)]
+[t.start() for t in ts]; [t.join() for t in ts]
+after = {}
+for i, f in enumerate(FILTERS):
+    try:
+        after[i] = [r['id'].name for r in g.filter(f)]
+    except BaseException as e:
+        after[i] = 'EXC ' + type(e).__name__
+sys.__stdout__.write(json.dumps({'first': [out.get(i) for i in range(n)], 'after': [after[i] for i in range(len(FILTERS))]}) + chr(10))
+"""
+COLD_EXPECT = [['b', 'c'], ['b'], ['c'], ['a'], ['b', 'c'], ['b', 'c'], ['a'], ['b', 'c']]
+
+
+def cold_starts(rep, tier):
+    """The very first filters of a process, compiled by several plain threads at once (fresh interpreters, a barrier, a
+    tiny switch interval): every thread gets its own filter's rows, and every filter still works afterwards.  Unlike the
+    deterministic scenarios these runs are sampled, not enumerated; a failure is reported with what was observed."""
+    import subprocess
+    from concurrent.futures import ThreadPoolExecutor
+    from core import REPO
+    runs = [(k, 2 + k % 3 * 3) for k in range(18 if tier == 'quick' else 120)]     # 2, 5 or 8 threads
+
+    def one(job):
+        k, n = job
+        p = subprocess.run(['/venv/bin/python', '-c', COLD, REPO, str(n)], stdout=subprocess.PIPE, stderr=subprocess.PIPE,
+                           timeout=120)
+        try:
+            return job, json.loads(p.stdout.decode().strip().split('\n')[-1])
+        except Exception:
+            return job, {'first': ['EXC no output'], 'after': [p.stderr.decode()[-300:]]}
+    bad = []
+    with ThreadPoolExecutor(max_workers=6) as ex:
+        for (k, n), o in ex.map(one, runs):
+            rep.case(('cold', k))
+            wrong = [i for i in range(min(n, len(o['first']))) if o['first'][i] != COLD_EXPECT[i]]
+            later = [i for i in range(len(o['after'])) if o['after'][i] != COLD_EXPECT[i]]
+            if wrong or later:
+                bad.append(({'engine': 'cold-start', 'threads': n, 'first_wrong': bool(wrong), 'later_wrong': bool(later)},
+                            {'threads': n, 'first': o['first'], 'after': o['after'], 'expected': COLD_EXPECT}))
+    rep.traces += len(runs)
+    rep.extra['cold_start_processes'] = {'runs': len(runs), 'failed': len(bad)}
+    return bad
+
+
 def run(tier):
     hs = use_repo()
     rep = Report('C13', tier)
@@ -410,6 +476,7 @@ def run(tier):
         if not ok:
             raise MachineryError('binding self-test failed: accepted=%r' % (acc,))
         found.extend(sequential_histories(rep, work, hs, tier, rng))
+        found.extend(cold_starts(rep, tier))
     for f, d in found:
         rep.violation(f, d)
     rep.rule = ('one case = one schedule (scenario, actual switch sequence) of real threads, distinct by switch sequence; '
@@ -428,6 +495,15 @@ def replay(path):
     with open(path) as fh:
         d = json.load(fh)
     c = d['case']
+    if d.get('features', {}).get('engine') == 'cold-start':
+        rep = Report('C13', 'quick')
+        rep.replay_dir = rep.replay_dir + '/re'
+        bad = cold_starts(rep, 'quick')
+        print('cold starts (sampled, %d fresh interpreters):' % rep.extra['cold_start_processes']['runs'], rep.extra['cold_start_processes'])
+        for f, dd in bad[:3]:
+            print('  ', f, dd['first'], dd['after'])
+        print('property holds on these runs' if not bad else 'VIOLATION property=C13 replay=%s' % path)
+        return 1 if bad else 0
     if 'switches' not in c:
         print(json.dumps(c, indent=1)[:3000])
         print('sequential histories are regenerated by `bin/check C13`; VIOLATION property=C13 replay=%s' % path)
